@@ -607,7 +607,7 @@ func (vc *VC) check(kind string, pos token.Pos, text string, cond Term, props []
 func (vc *VC) checkG(kind string, pos token.Pos, text string, guard, cond Term, props []string) *Obligation {
 	if cond == "true" {
 		switch kind {
-		case "at-call", "at-return", "body-calls", "body-stores", "ensures", "inv-entry", "inv-preserved", "decreases", "fresh-writes":
+		case "at-call", "at-return", "body-calls", "body-stores", "forbid-call", "format-const", "map-order", "loop-complete", "ensures", "inv-entry", "inv-preserved", "decreases", "fresh-writes":
 			// syntactically trivial contract obligations are still recorded: if the code changes they
 			// become real obligations under the same name
 		default:
